@@ -1,7 +1,7 @@
 """C08 harness: error messages are total and complete.
 
 Failing conversions are produced by the real converters from values whose SHAPE is symbolic: one or two faults, chosen by
-the solver among 14 fault sites (wrong kind at depth 1-4, missing / unexpected / duplicated keys, mixed-kind unexpected keys,
+the solver among 15 fault sites (wrong kind at depth 1-4, missing / unexpected / duplicated keys, mixed-kind unexpected keys,
 failing and raising predicates, raising validation hook, wrong tuple length, sums inside products inside sums, fused
 single-child chains), with concrete sentinel leaves (rendering would realise symbolic ones).  Each injected fault carries
 the tokens the text must contain, in nesting order.  Oracle: containment rules read off the property statement.
@@ -120,6 +120,11 @@ def inject(d, site, k, reqs):
         d[None] = 2
         reqs.append(["Unexpected field '7'"])
         reqs.append(["Unexpected field 'None'"])
+    elif site == 15:
+        d['top']['al'] = 'SENTal'            # the first spelling fails to convert, the second spelling is still a duplicate
+        d['top']['alias_al'] = 4
+        reqs.append(['top', 'Duplicate key', 'alias_al'])
+        reqs.append(['top', 'al', 'an int'])
     elif site == 14:
         d['seq'] = (s if k != 3 else 'x', [2, s])
         reqs.append(['seq', '0', 'an int'])
@@ -143,7 +148,8 @@ def check_render(s1, k1, s2, k2):
         inject(d, s1, k1, reqs)
     if s2 != 0 and s2 != s1:
         # (faults on the same branch can mask each other: only combine compatible sites)
-        if not ((s1 == 11 and s2 in (1, 2, 3, 4, 5, 6, 12)) or (s2 == 11 and s1 in (1, 2, 3, 4, 5, 6, 12))
+        if not ((s1 == 11 and s2 in (1, 2, 3, 4, 5, 6, 12, 15)) or (s2 == 11 and s1 in (1, 2, 3, 4, 5, 6, 12, 15))
+                or (s1 in (6, 15) and s2 in (6, 15))
                 or (s1 in (1, 2, 3, 12) and s2 in (1, 2, 3, 12) and (s1 == 12 or s2 == 12 or (s1 in (1, 2) and s2 in (1, 2)))) or (s1 in (7, 8) and s2 in (7, 8)) or (s1 in (9, 10) and s2 in (9, 10))):
             inject(d, s2, k2, reqs)
     if not reqs:
@@ -183,7 +189,7 @@ def check_render(s1, k1, s2, k2):
     return -1
 
 
-for _s1 in range(15):
+for _s1 in range(16):
     for _s2 in (0, 3, 9):
         for _k in range(4):
             try:
@@ -192,11 +198,11 @@ for _s1 in range(15):
                 pass
 
 _T = '''
-@obligation(pre="{lo} <= s1 <= {hi} and 0 <= k1 <= 3 and 0 <= s2 <= 14 and 0 <= k2 <= 3 and (s2 == 0 or k2 == 0 or s2 in (1, 4, 5, 9, 14)) and (k1 == 0 or s1 in (1, 4, 5, 9, 14))",
+@obligation(pre="{lo} <= s1 <= {hi} and 0 <= k1 <= 3 and 0 <= s2 <= 15 and 0 <= k2 <= 3 and (s2 == 0 or k2 == 0 or s2 in (1, 4, 5, 9, 14)) and (k1 == 0 or s1 in (1, 4, 5, 9, 14))",
             witnesses={wit}, timeout=300)
 def body_render_{lo}(s1: int, k1: int, s2: int, k2: int) -> int:
     """rendering the error of a conversion with one or two injected faults (first fault site {lo}..{hi}) never raises, is stable, and names every failing path component, expectation, key and cause"""
     return check_render(s1, k1, s2, k2)
 '''
-for (_lo, _hi) in ((0, 1), (2, 3), (4, 5), (6, 8), (9, 10), (11, 12), (13, 14)):
+for (_lo, _hi) in ((0, 1), (2, 3), (4, 5), (6, 8), (9, 10), (11, 12), (13, 15)):
     exec(_T.format(lo=_lo, hi=_hi, wit=(0, -1) if _lo == 0 else (-1,)))
